@@ -16,9 +16,9 @@ fn needs_serde(_g: &mut Global) {
 
 fn table() -> Vec<(&'static str, RunFn)> {
     #[cfg(feature = "serde")]
-    let serde_checks: Vec<(&'static str, RunFn)> = vec![("C06", props::c06::run as RunFn)];
+    let serde_checks: Vec<(&'static str, RunFn)> = vec![("C06", props::c06::run as RunFn), ("C18", props::c18::run as RunFn)];
     #[cfg(not(feature = "serde"))]
-    let serde_checks: Vec<(&'static str, RunFn)> = vec![("C06", needs_serde as RunFn)];
+    let serde_checks: Vec<(&'static str, RunFn)> = vec![("C06", needs_serde as RunFn), ("C18", needs_serde as RunFn)];
     let mut v = base_table();
     v.extend(serde_checks);
     v
@@ -38,8 +38,10 @@ fn base_table() -> Vec<(&'static str, RunFn)> {
         ("C11", props::c11::run as RunFn),
         ("C12", props::c12::run as RunFn),
         ("C13", props::c13::run as RunFn),
+        ("C14", props::c14::run as RunFn),
         ("C15", props::c15::run as RunFn),
         ("C16", props::c16::run as RunFn),
+        ("C17", props::c17::run as RunFn),
     ]
 }
 
